@@ -37,6 +37,37 @@ ASSUMPTIONS = [
 ]
 
 
+def check_hash_covers_generated_code(ctx, rule='R10-hash-covers-text'):
+    """the cookie that decides whether a cached module is reused covers every non-constant part
+    of the module text (the generated drivers with their struct formats and sizes): otherwise an
+    edited declaration runs the code generated for the previous one"""
+    model = CacheModel(ctx.repo, max_paths=max(ctx.max_paths, 65536))
+    fi = model.fi
+    seen = set()
+    n = 0
+    for p in model.paths:
+        evs = model.events(p)
+        for ev in evs:
+            if ev['ev'] == 'write':
+                src = ev['arg']
+            elif ev['ev'] == 'exec':
+                code = ev['code']
+                src = code.args[0] if isinstance(code, ast.Call) and call_name(code) == 'compile' and code.args else code
+            else:
+                continue
+            for op in concat_operands(src):
+                st = 'module text operand %s' % short_op(op)
+                if st in seen:
+                    continue
+                seen.add(st)
+                n += 1
+                if not foreign_operands(model, p, evs, op):
+                    ctx.holds(rule, fi, st, 'constant, cookie line or input of the hash', ev['eff'].lineno, clause='H')
+                else:
+                    ctx.violation(rule, fi, st, 'this part of the cache module is not covered by the cookie: after the declaration is edited the module generated for the old declaration (old struct formats and sizes) is reused', ev['eff'].lineno, clause='H')
+    return n
+
+
 def check(ctx):
     repo = ctx.repo
     model = CacheModel(repo, max_paths=max(ctx.max_paths, 65536))
